@@ -459,7 +459,14 @@ def fold_literals(ast):
     if k in ("add", "mul"):
         return (k, [fold_literals(a) for a in ast[1]])
     if k == "fn":
-        return (k, ast[1], [fold_literals(a) for a in ast[2]])
+        args = [fold_literals(a) for a in ast[2]]
+        if ast[1] in ("Integral", "Sum", "Product") and len(args) > 2:
+            # several limits are the iterated operator, the first limit innermost (both sides alike)
+            inner = args[0]
+            for lim in args[1:]:
+                inner = ("fn", ast[1], [inner, lim])
+            return inner
+        return (k, ast[1], args)
     if k == "neg":
         x = fold_literals(ast[1])
         return ("num", -x[1], x[2]) if x[0] == "num" else ("neg", x)
@@ -1058,6 +1065,17 @@ class LatexParser:
             if lo is not None:
                 raise Outside("latex: sum with a lower limit only")
             return ("fn", name, [self.body(), idx])
+        if t in ("\\iint", "\\iiint", "\\iiiint"):
+            # k-fold integral without limits: body, then k differentials, the first one innermost
+            self.in_integral += 1
+            try:
+                body = self.body()
+            finally:
+                self.in_integral -= 1
+            for _ in range(len(t) - 3):
+                self.expect("d")
+                body = ("fn", "Integral", [body, self.factor()])
+            return body
         if t == "\\int":
             self.accept("\\limits")
             lo = hi = None
